@@ -57,7 +57,7 @@ void h_setopt_int_concrete(void)
 
 	r = cfg_setopt(&cfg, &opt, in_tok);
 
-	CHECK("C04", verdict != 1 || r != NULL, "a numeral in the radix its prefix selects, within range, is accepted (whatever errno was)");
+	CHECK("C04,C05", verdict != 1 || r != NULL, "a numeral in the radix its prefix selects, within range, is accepted (whatever errno was)");
 	CHECK("C04", verdict != 1 || r == NULL || r->number == want, "an accepted numeral yields exactly its value");
 	CHECK("C04", verdict != 0 || r == NULL, "a token that is not a complete numeral with >= 1 digit is rejected");
 	CHECK("C04,C06", r != NULL || g_diag >= 1, "a rejected integer token is reported through the error function");
@@ -80,7 +80,7 @@ void h_setopt_bool_concrete(void)
 
 	r = cfg_setopt(&cfg, &opt, in_tok);
 
-	CHECK("C04", want == -1 || (r != NULL && r->boolean == (cfg_bool_t)want), "true/yes/on and false/no/off in any letter case are accepted with that truth value");
+	CHECK("C04,C05", want == -1 || (r != NULL && r->boolean == (cfg_bool_t)want), "true/yes/on and false/no/off in any letter case are accepted with that truth value");
 	CHECK("C04", want != -1 || r == NULL, "any other token is rejected for a boolean option");
 	CHECK("C04,C06", r != NULL || g_diag >= 1, "a rejected boolean token is reported through the error function");
 	CHECK("C04,C10", r != NULL || (v.boolean == old && opt.nvalues == 1 && opt.flags == (cfg_flag_t)in_flags), "a rejected boolean token leaves the option as it was");
@@ -183,7 +183,7 @@ void h_setopt_float_abstract(void)
 
 	CHECK("C04", g_conv_calls == 1 && g_conv_nptr == in_tok, "the whole token is handed to the float conversion, once");
 	numeral = in_conv_end == len && in_conv_end > 0 && !in_conv_range;
-	CHECK("C04", !numeral || r != NULL, "a complete finite-range float numeral is accepted (whatever errno was)");
+	CHECK("C04,C05", !numeral || r != NULL, "a complete finite-range float numeral is accepted (whatever errno was)");
 	CHECK("C04", r == NULL || in_conv_end == len, "accepted float: the conversion consumed the whole token");
 	CHECK("C04", r == NULL || in_conv_end > 0, "accepted float: the conversion consumed at least one byte (an empty token is not a numeral)");
 	CHECK("C04", r == NULL || !in_conv_range, "accepted float: no range error");
@@ -217,10 +217,10 @@ void h_setopt_int_abstract(void)
 	CHECK("C04", in_tok[0] != '0' ? (skip == 0 && (g_conv_base == 0 || g_conv_base == 10)) : 1, "no prefix: the whole token is converted as signed decimal");
 	CHECK("C04", r == NULL || skip + in_conv_end == len, "accepted integer: the conversion consumed the whole token");
 	CHECK("C04", r == NULL || !in_conv_range, "accepted integer: the value is within the range of long (no silent clamp to LONG_MAX/LONG_MIN)");
-	CHECK("C04", r == NULL || r->number == in_conv_long, "accepted integer: the stored value is the converted one");
+	CHECK("C04,C05", r == NULL || r->number == in_conv_long, "accepted integer: the stored value is the converted one");
 	/* digits >= 1 and "nothing but digits after a prefix" are lexical facts: decided by the concrete unit */
 	numeral = skip + in_conv_end == len && in_conv_end > 0 && !in_conv_range && g_conv_base != 16 && g_conv_base != 2 && g_conv_base != 8;
-	CHECK("C04", !numeral || r != NULL, "a complete in-range decimal numeral is accepted (whatever errno was)");
+	CHECK("C04,C05", !numeral || r != NULL, "a complete in-range decimal numeral is accepted (whatever errno was)");
 	CHECK("C04,C06", r != NULL || g_diag >= 1, "a rejected integer token is reported through the error function");
 	CHECK("C04,C10", r != NULL || (v.number == old && opt.nvalues == 1 && opt.flags == (cfg_flag_t)in_flags), "a rejected integer token leaves the option as it was");
 	CANARY("setopt_int_abstract");
